@@ -285,7 +285,9 @@ func alertEdges(c *Ctx, rule, name string, fn *ssa.Function, verify ssa.Instruct
 					// reachable from the verification on a path not confined to the failing edge
 					cs := p.CondsAt(b)
 					confined := hasCond(cs, func(k Cond) bool { return k.V == okV && !k.Pol || k.Atom.V == okV && !k.Pol })
-					errEdge := hasCond(cs, func(k Cond) bool { return k.Atom.Op == "EQ" && !k.Pol && (isErrorTerm(k.Atom.Args[0]) || isErrorTerm(k.Atom.Args[1])) })
+					errEdge := hasCond(cs, func(k Cond) bool {
+						return k.Atom.Op == "EQ" && !k.Pol && (isErrorTerm(k.Atom.Args[0]) || isErrorTerm(k.Atom.Args[1]))
+					})
 					if !confined && !errEdge {
 						passAlerts = true
 					}
